@@ -21,6 +21,7 @@ from __future__ import annotations
 import math
 import os
 import sys
+import time
 from fractions import Fraction
 
 from ..core import Ctx, generic_replay
@@ -196,80 +197,70 @@ def execute(inp):
 
 
 # ------------------------------------------------------------------ direction 1: MC scopes
+# The scopes themselves are defined in spec/MC_Genes.tla (Scopes(Tier)); these are their descriptions, in order.
+SCOPE_TEXT = {
+    "quick": [
+        "by_gene: all label sequences <= 5 bins over {A,B,Antitarget,-,CGH} satisfying the premise, 1 chromosome, row index default/shifted/gapped",
+        "by_gene: 2 chromosomes, <= 3 x <= 2 bins, index default/gapped",
+        "by_gene with comma-joined labels {A,B,'A,B',-}: <= 4 bins, index default/gapped",
+        "squash_genes: <= 4 bins over {A,B,Antitarget,-}, index default/gapped, squash_antitarget x max/min",
+        "genemetrics: <= 4 bins over {A,B,Antitarget,-} on one chromosome (autosome or X), gapped index, values with low-coverage/zero-depth bins, threshold {0,0.5} x min_probes {0,2} x skip_low x sex adjustment {none, +1 on X}",
+        "genemetrics: 2 chromosomes <= 2 x <= 2 bins (last = X), min_probes 2",
+        "genemetrics by segment: <= 3 bins over {A,B,Antitarget,-}, every cut set (with/without the first segment), threshold {0,0.5} x min_probes {0,2} x segment probes/weight columns present/absent",
+        "breaks: <= 4 bins over {A,B,-}, every cut set (with/without the first segment), min_probes {1,2}",
+    ],
+    "thorough": [
+        "by_gene: all label sequences <= 6 bins over {A,B,Antitarget,-,CGH} satisfying the premise, 1 chromosome, 4 row-index modes",
+        "by_gene: 2 chromosomes, <= 4 x <= 3 bins, index default/shifted/gapped",
+        "by_gene with comma-joined labels {A,B,'A,B',-}: <= 5 bins, 4 row-index modes",
+        "squash_genes: <= 5 bins over {A,B,Antitarget,-,CGH}, 3 row-index modes, squash_antitarget x max/min",
+        "squash_genes: 2 chromosomes <= 3 x <= 2 bins",
+        "genemetrics: <= 4 bins over {A,B,Antitarget,-,CGH}, index default/gapped, 2 value patterns, threshold {0,0.5,0.2} x min_probes {0,1,2,3} x skip_low x 3 sex settings",
+        "genemetrics: 2 chromosomes <= 3 x <= 2 bins (last = X), threshold {0,0.5,0.2} x min_probes {0,2,3} x skip_low x 3 sex settings",
+        "genemetrics by segment: <= 4 bins over {A,B,Antitarget,-}, every cut set, threshold {0,0.5,0.2} x min_probes {0,1,2,3} x segment columns present/absent",
+        "genemetrics by segment: 2 chromosomes <= 2 x <= 2 bins (last = X), 3 sex settings",
+        "breaks: <= 5 bins over {A,B,Antitarget,-}, index default/gapped, every cut set, min_probes {1,2,3}",
+    ],
+}
+# scopes run together in one TLC run (keeps each dump below ~250 MB)
+GROUPS = {"quick": [[1, 2, 3, 4, 5, 6, 7, 8]], "thorough": [[1, 3], [2], [4, 5], [6], [7], [8, 9, 10]]}
+
+
 def _set(xs):
-    return "{" + ", ".join(str(x) if not isinstance(x, str) else f'"{x}"' for x in xs) + "}"
+    return "{" + ", ".join(str(x) for x in xs) + "}"
 
 
-def _scope(name, ops, len1, len2=0, nchroms=(1,), labels="LabelsPlain", modes=(0,), pats=(1,), thr="ThrTwo",
-           minp=(0, 2), sex="SexNone"):
-    return {"name": name, "constants": {
-        "MaxLen1": len1, "MaxLen2": len2, "NChroms": _set(nchroms), "Labels": "<- " + labels, "IxModes": _set(modes),
-        "McOps": _set(ops), "Pats": _set(pats), "ThrSet": "<- " + thr, "MinpSet": _set(minp), "SexSet": "<- " + sex}}
+def _iter_dump_chunks(path):
+    """Yield the text of one state at a time (never the whole dump in memory)."""
+    buf = []
+    with open(path) as f:
+        for line in f:
+            if line.startswith("State ") and tlaval._state_hdr.match(line):
+                if buf:
+                    yield "".join(buf)
+                buf = [line]
+            elif buf:
+                buf.append(line)
+    if buf:
+        yield "".join(buf)
 
 
-def _scopes(thorough):
-    if not thorough:
-        return [
-            _scope("by_gene: all label sequences <= 5 bins over {A,B,Antitarget,-,CGH}, 1 chromosome, index default/shifted/gapped",
-                   ["by_gene"], 5, modes=(0, 1, 2)),
-            _scope("by_gene: 2 chromosomes, <= 3 x <= 2 bins, index default/shifted/gapped", ["by_gene"], 3, 2,
-                   nchroms=(2,), modes=(0, 1, 2)),
-            _scope("by_gene with comma-joined labels {A,B,'A,B',-}: <= 4 bins, index default/gapped", ["by_gene"], 4,
-                   labels="LabelsComma", modes=(0, 2)),
-            _scope("squash_genes: <= 4 bins over {A,B,Antitarget,-,CGH}, 1 chromosome, index default/gapped, "
-                   "squash_antitarget x max/min", ["squash"], 4, modes=(0, 2)),
-            _scope("genemetrics: <= 4 bins over {A,B,Antitarget,-} on 1 chromosome (which may be X), gapped index, values "
-                   "with low-coverage/zero-depth bins, threshold {0, 0.5} x min_probes {0,2} x skip_low x sex adjustment",
-                   ["genemetrics"], 4, labels="LabelsFour", modes=(2,), pats=(2,), sex="SexTwo"),
-            _scope("genemetrics: 2 chromosomes <= 2 x <= 2 bins over {A,B,Antitarget,-} (last = X), min_probes 2",
-                   ["genemetrics"], 2, 2, nchroms=(2,), labels="LabelsFour", modes=(2,), pats=(2,), minp=(2,), sex="SexTwo"),
-            _scope("genemetrics by segment: <= 3 bins over {A,B,Antitarget,-,CGH}, every cut set (with/without the first "
-                   "segment), threshold {0,0.5} x min_probes {0,2} x segment probes column present/absent",
-                   ["genemetrics_seg"], 3, modes=(2,)),
-            _scope("breaks: <= 4 bins over {A,B,-}, every cut set (with/without the first segment), min_probes {1,2}",
-                   ["breaks"], 4, labels="LabelsThree", modes=(0,), minp=(1, 2)),
-        ]
-    return [
-        _scope("by_gene: all label sequences <= 6 bins over {A,B,Antitarget,-,CGH}, 1 chromosome, 4 index modes",
-               ["by_gene"], 6, modes=(0, 1, 2, 3)),
-        _scope("by_gene: 2 chromosomes, <= 4 x <= 3 bins, index default/shifted/gapped", ["by_gene"], 4, 3,
-               nchroms=(2,), modes=(0, 1, 2)),
-        _scope("by_gene with comma-joined labels {A,B,'A,B',-}: <= 5 bins, 4 index modes", ["by_gene"], 5,
-               labels="LabelsComma", modes=(0, 1, 2, 3)),
-        _scope("squash_genes: <= 5 bins, 1 chromosome, 3 index modes, squash_antitarget x max/min", ["squash"], 5,
-               modes=(0, 1, 2)),
-        _scope("squash_genes: 2 chromosomes <= 3 x <= 2", ["squash"], 3, 2, nchroms=(2,), modes=(0, 2)),
-        _scope("genemetrics: <= 4 bins on 1 chromosome, index default/gapped, 2 value patterns, threshold {0,0.5,0.2} x "
-               "min_probes {0,1,2,3} x skip_low x 3 sex settings", ["genemetrics"], 4, modes=(0, 2), pats=(1, 2),
-               thr="ThrThree", minp=(0, 1, 2, 3), sex="SexThree"),
-        _scope("genemetrics: 2 chromosomes <= 3 x <= 2 (last = X)", ["genemetrics"], 3, 2, nchroms=(2,), modes=(2,),
-               pats=(2,), thr="ThrThree", minp=(0, 2, 3), sex="SexThree"),
-        _scope("genemetrics by segment: <= 4 bins, every cut set, threshold {0,0.5,0.2} x min_probes {0,1,2,3} x segment "
-               "probes column present/absent", ["genemetrics_seg"], 4, modes=(0, 2), thr="ThrThree", minp=(0, 1, 2, 3)),
-        _scope("genemetrics by segment: 2 chromosomes <= 2 x <= 2 (last = X), sex adjustment", ["genemetrics_seg"], 2, 2,
-               nchroms=(2,), modes=(2,), sex="SexThree"),
-        _scope("breaks: <= 5 bins, every cut set, min_probes {1,2,3}", ["breaks"], 5, modes=(0, 2), minp=(1, 2, 3)),
-    ]
-
-
-def _mc_inputs(ctx, module, cfg, timeout):
+def _mc_inputs(ctx, module, cfg, timeout, tag):
     """ctx.mc, but only the "ret" states of the dump are parsed (the "call" states repeat the same inputs)."""
-    r = ctx.tlc(module, cfg, kind="mc", dump=True, timeout=timeout)
+    r = ctx.tlc(module, cfg, kind="mc", dump=True, timeout=timeout, tag=tag)
     require_ok(r, f"(design check {module})")
     print(f"  [tlc mc {module}] {r.distinct} states in {r.wall_s:.1f}s violated={r.violated}", file=sys.stderr)
     ctx.design_checks.append({"module": module, "violated": r.violated, "states": r.distinct})
     inputs = []
-    with open(r.dump_path) as f:
-        text = f.read()
-    os.remove(r.dump_path)
-    marks = [m.start() for m in tlaval._state_hdr.finditer(text)] + [len(text)]
-    for a, b in zip(marks, marks[1:]):
-        chunk = text[a:b]
+    t1 = time.time()
+    for chunk in _iter_dump_chunks(r.dump_path):
         if 'ph = "ret"' not in chunk:
             continue
         st = next(tlaval.iter_dump_states(chunk))
         inputs.append({"op": st["op"], "bins": [_bin_py(x) for x in st["bins"]], "segs": [list(t) for t in st["segs"]],
                        "par": tlaval.to_py(st["par"]), "naming": "chr"})
+    os.remove(r.dump_path)
+    print(f"  [c16] dump parsed: {len(inputs)} inputs in {time.time() - t1:.1f}s", file=sys.stderr)
     return r, inputs
 
 
@@ -488,20 +479,22 @@ def run(ctx: Ctx):
                 "cut at bin boundaries). A case is distinct by (op, bins, segments, parameters, naming); non-trivial when "
                 "the table has a named gene.")
     all_records = []
-    names = []
-    for k, sc in enumerate(_scopes(thorough)):
-        cfg = ctx.cfg(f"mc-{k}", spec="Spec", invariants=["DesignOK", "DesignOldCaught"], constants=sc["constants"])
-        r, inputs = _mc_inputs(ctx, "MC_Genes", cfg, timeout=3000)
+    for g, ids in enumerate(GROUPS[ctx.tier]):
+        cfg = ctx.cfg(f"mc-{g}", spec="Spec", invariants=["DesignOK", "DesignOldCaught"],
+                      constants={"Tier": f'"{ctx.tier}"', "ScopeIds": _set(ids)})
+        r, inputs = _mc_inputs(ctx, "MC_Genes", cfg, 3000, f"mc{g}")
         if len(inputs) * 2 != r.distinct:
             raise MachineryError(f"dump replay: {len(inputs)} ret states parsed, TLC reports {r.distinct} states")
+        t1 = time.time()
         recs = ctx.execute(execute, inputs)
+        print(f"  [c16] group {g}: {len(recs)} real calls in {time.time() - t1:.1f}s", file=sys.stderr)
         all_records += recs
-        names.append(sc["name"])
-        ctx.notes[f"scope{k}"] = {"scope": sc["name"], "tlc_states": r.distinct, "replayed": len(recs)}
+        ctx.notes[f"mc_run{g}"] = {"scopes": [SCOPE_TEXT[ctx.tier][k - 1] for k in ids], "tlc_states": r.distinct,
+                                   "replayed": len(recs), "by_op": {o: sum(1 for x in recs if x["op"] == o) for o in OPS}}
+    names = SCOPE_TEXT[ctx.tier]
     # the unrepaired algorithm at design level (documents the defect; informational)
-    cfg = ctx.cfg("mc-old", spec="Spec", invariants=["DesignOldByGene"],
-                  constants=_scope("", ["by_gene"], 3, modes=(0, 1))["constants"])
-    r = ctx.tlc("MC_Genes", cfg, kind="mc", dump=False, timeout=600)
+    cfg = ctx.cfg("mc-old", spec="Spec", invariants=["DesignOldByGene"], constants={"Tier": '"quick"', "ScopeIds": "{2}"})
+    r = ctx.tlc("MC_Genes", cfg, kind="mc", dump=False, timeout=600, tag="mcold")
     require_ok(r, "(design check of the label-inclusive by_gene)")
     ctx.notes["label_inclusive_by_gene_design_check"] = {
         "invariant": "DesignOldByGene", "violated": bool(r.violated),
@@ -510,7 +503,9 @@ def run(ctx: Ctx):
         raise MachineryError("DesignOldByGene was expected to be violated by ByGeneLabelInclusive (vacuity guard)")
     ctx.exhaustive = "; ".join(names) + " -- every dumped transition replayed"
     n_rand = 30000 if thorough else 2500
+    t1 = time.time()
     rnd = ctx.execute(execute, random_inputs(ctx, n_rand))
+    print(f"  [c16] random: {len(rnd)} real calls in {time.time() - t1:.1f}s", file=sys.stderr)
     all_records += rnd
     for rec in all_records:
         ctx.count_input([rec["op"], rec["bins"], rec["segs"], rec["par"], rec["naming"]],
